@@ -67,6 +67,22 @@ void simk_advance_clamped(ns_t d);    /* env op while blocked */
 int  simk_nthreads(void);
 int  simk_wait_count(void);
 
+/* simulated signals and processes (simk_sig.c) */
+extern int simk_sig_enabled;
+extern int simk_fork_exit;
+void simk_sig_init(void);
+int  simk_sigpoint(void);
+int  simk_sig_pending_unblocked(int t);
+void simk_raise(int sig, int thread);
+void simk_thread_inherit_mask(int child, int parent);
+const char *simk_disposition(int sig);
+void simk_set_pid(pid_t p);
+void simk_set_next_pids(const int *p, int n);
+void simk_set_sigchld_thread(int t);
+void simk_add_child(pid_t pid);
+void simk_child_policy(pid_t pid, int policy, int n);
+void simk_child_event(pid_t pid, int what, int arg);
+
 /* real functions */
 ssize_t __real_read(int, void *, size_t);
 ssize_t __real_write(int, const void *, size_t);
